@@ -1,6 +1,7 @@
 import TrionModel.Props.C05Multi3
 import TrionModel.Props.C08Deferred
 import TrionModel.Lemmas.AsmDefTasks
+import TrionModel.Lemmas.AsmDefEval
 /-!
 # C05 (pipeline clause) with `Deferred` names — what is proved about the two excluded cases, and what is not
 
@@ -42,8 +43,9 @@ MISSING for the target theorem (why it is not stated as proved):
 1. the statement simulation (Lemmas/AsmRefineStmt.lean / AsmMultiStmt.lean) carries `Table.NoDef t` for the CURRENT table in
    `Sim.tbl`; every lemma that evaluates (`du_core`, `instr_core`, `addr/align/const_sim`) uses it to exclude the outcome
    `Deferred` and for "a complete evaluation has looked up only valued names".  Generalising needs: `DefOk D t` in place of
-   `NoDef t`; "complete ⇒ no Deferred name was looked up" (`evaluateE` induction; `Simp.evaluateE_mono_complete`,
-   `Simp.evaluateE_undefer` of Lemmas/AsmRetryAgree.lean are the other half); the `Deferred` branch of `du_core` /
+   `NoDef t`; ("complete ⇒ no Deferred name was looked up, every identifier valued" is now PROVED:
+   `Simp.evaluateE_complete_noDefIn`, Lemmas/SimpCompleteNoDef.lean, `evalIn_complete_valued`, Lemmas/AsmDefEval.lean; with
+   `Simp.evaluateE_mono_complete`, `Simp.evaluateE_undefer` of Lemmas/AsmRetryAgree.lean the immediate statements go through); the `Deferred` branch of `du_core` /
    `instr_core` (placeholder + task, as the `noSuch` branch); the `some none` case of `insert_constant` in `label_sim` /
    `const_sim`;
 2. `TaskRel` needs the two new provenances — first attempt `Deferred` (`LeftByT t₁ a a₁`; its task step is
